@@ -555,10 +555,10 @@ func (d *DiskKVTest) Open(stopc <-chan struct{}) (uint64, error) {
 func (d *DiskKVTest) Lookup(key interface{}) (interface{}, error) {
 	db := (*pebbledb)(atomic.LoadPointer(&d.db))
 	if db != nil {
+		// Lookup is allowed to run concurrently with Close: a read that was
+		// served by the handle before Close got to it is a valid result, there
+		// is nothing to assert on d.closed here.
 		v, err := db.lookup(key.([]byte))
-		if err == nil && d.closed {
-			panic("lookup returned valid result when DiskKVTest is already closed")
-		}
 		if err == pebble.ErrNotFound {
 			return v, nil
 		}
